@@ -3201,7 +3201,10 @@ impl Zeroconf {
                 // Simultaneous Probe Tiebreaking (RFC 6762 section 8.2)
                 if qtype == RRType::ANY && msg.num_authorities() > 0 {
                     if let Some(probe) = dns_registry.probing.get_mut(q_name) {
-                        probe.tiebreaking(&msg, q_name);
+                        if let Some(next_send) = probe.tiebreaking(&msg, q_name) {
+                            // The probe is postponed: wake up when it restarts.
+                            self.timers.push(Reverse(next_send));
+                        }
                     }
                 }
 
